@@ -29,7 +29,7 @@ E = G.E
 INT, BOOL, STR, UNIT = G.INT, G.BOOL, G.STR, G.UNIT
 
 TEMPLATES = [
-    ("expected-type", re.compile(r"Expected `[^`]*` but .* has type")),
+    ("expected-type", re.compile(r"Expected `[^`]*` but .* has type|Expected `(Int|Bool|String|Float|List|Option|Result|Tuple)[^`]*` but got `Unit`")),
     ("arity", re.compile(r"requires \d+ argument|expects \d+ argument|Closure expects|takes \d+ argument")),
     ("no-such-variable", re.compile(r"No such variable")),
     ("not-bound", re.compile(r"is not currently bound")),
@@ -171,6 +171,32 @@ def sites(prog):
 
     def prn_unit():
         return {"k": "expr", "e": E("call", UNIT, False, True, fn="println", builtin=True, args=[E("str", STR, v="n")])}
+
+    # the Unit value of a statement-like construct used where an Int is needed
+    def unit_value(block):
+        ints = E("list", ["List", INT], items=[E("int", INT, v=1), E("int", INT, v=2)])
+        one = [{"k": "expr", "e": E("int", INT, v=1)}]
+        variants = {
+            "unit-value-of-if-without-else": E("if", INT, True, True, cond=E("bool", BOOL, v=True), then=one, els=None),
+            "unit-value-of-if-without-else-call": E("if", INT, True, True, cond=E("bool", BOOL, v=True),
+                                                    then=[{"k": "expr", "e": E("call", INT, fn="max", builtin=True, args=[E("int", INT, v=1), E("int", INT, v=2)])}], els=None),
+        }
+        for kind, e in variants.items():
+            def apply(rng, block=block, e=e):
+                i = rng.randrange(len(block) + 1)
+                while i > 0 and block[i - 1]["k"] in ("break", "continue", "return"):
+                    i -= 1
+                i = min(i, max(0, len(block) - 1))
+                use = E("bin", INT, op="+", l=E("var", INT, name="verif_uv", bid=0), r=E("int", INT, v=1))
+                block[i:i] = [{"k": "let", "name": "verif_uv", "bid": 0, "ann": None, "e": e},
+                              {"k": "expr", "e": E("call", UNIT, False, True, fn="println", builtin=True,
+                                                   args=[E("call", STR, fn="string_repr", builtin=True, args=[use])])}]
+            out.append((kind, apply))
+
+    unit_value(prog["main"])
+    for f in prog["funs"]:
+        if f["body"]:
+            unit_value(f["body"])
 
     after_scope(prog["main"])
     for f in prog["funs"]:
